@@ -36,9 +36,10 @@ def sym_value(name, t, mode="array", shape=None):
   if is_array_type(t):
     sk, ncomp, vshape, vdt = dtype_info(t.dtype)
     nd = t.ndim
-    shp = list(shape) if shape is not None else [z3.Int(f"{name}.shape{d}") for d in range(nd)]
+    shp = list(shape) if shape is not None else [None] * nd
     if len(shp) != nd:
       raise Unsupported(f"shape rank for {name}: {shp} vs ndim {nd}")
+    shp = [z3.Int(f"{name}.shape{d}") if s is None else s for d, s in enumerate(shp)]
     return ArrRef(Cell(name, shp, sk, ncomp, vshape, vdt, mode=mode, wptype=t.dtype))
   sk = scalar_kind(t)
   if sk:
